@@ -145,6 +145,19 @@ Bnd2(T) == IF T = "felt252" THEN (IF Quick THEN {ZM1, HALFP, ZPow2(128)} ELSE {Z
            ELSE IF Quick THEN {Lo(T), Hi(T)} \cup (IF Signed(T) THEN {ZM1} ELSE {})
            ELSE {Lo(T), Hi(T), Z1, ZInt(2)} \cup (IF Signed(T) THEN {ZM1} ELSE {Z0})
 
+\* operand pairs of the depth-1 binary shape: quick = a list of boundary pairs, thorough = the full square
+H2(T) == ZPow2(BitsOf[T] \div 2)
+QuickPairs(T) ==
+    IF T = "felt252"
+    THEN {<<ZM1, Z1>>, <<ZSub(PRIME, Z1), Z1>>, <<HALFP, HALFP>>, <<ZAdd(HALFP, Z1), ZM1>>, <<ZPow2(128), ZPow2(128)>>,
+          <<Z0, ZM1>>, <<ZSub(PRIME, Z1), ZM1>>, <<HALFP, Z1>>, <<Z0, Z0>>}
+    ELSE IF Signed(T)
+    THEN {<<Lo(T), ZM1>>, <<Lo(T), Hi(T)>>, <<Hi(T), Z1>>, <<Hi(T), Hi(T)>>, <<Lo(T), Lo(T)>>, <<Z0, Z0>>, <<ZM1, Lo(T)>>,
+          <<Hi(T), ZM1>>, <<Lo(T), Z1>>, <<H2(T), H2(T)>>, <<Z1, Z0>>, <<ZInt(-7), ZInt(2)>>, <<ZInt(7), ZInt(-2)>>}
+    ELSE {<<Z0, Z1>>, <<Z0, Hi(T)>>, <<Hi(T), Z1>>, <<Hi(T), Hi(T)>>, <<Z0, Z0>>, <<Hi(T), Z0>>, <<Z1, Hi(T)>>, <<H2(T), H2(T)>>,
+          <<Hi(T), ZInt(2)>>, <<ZSub(Hi(T), Z1), Z1>>, <<Z1, Z0>>, <<ZInt(7), ZInt(2)>>}
+Pairs(T) == IF Quick THEN QuickPairs(T) ELSE Bnd(T) \X Bnd(T)
+
 OpsOf(T) ==
     IF T = "felt252" THEN {"add", "sub", "mul", "eq", "ne"}
     ELSE IF Signed(T) THEN ArithOps \cup CmpOps
@@ -165,12 +178,14 @@ ConvTargets(S, kd) ==
 
 \* Shapes are enumerated by quantification in Init (no materialised set of expressions).
 \* depth 1
-I1 == \E T \in NumTypes : \E o \in OpsOf(T), a \in Bnd(T), b \in Bnd(T) : ex = Bin(o, Lit(T, a), Lit(T, b))
+I1 == \E T \in NumTypes : \E o \in OpsOf(T), p \in Pairs(T) : ex = Bin(o, Lit(T, p[1]), Lit(T, p[2]))
 I2 == \E T \in STypes \cup {"felt252"} : \E a \in Bnd(T) : ex = [k |-> "un", op |-> "neg", e |-> Lit(T, a)]
-I3 == \E T \in IntTypes \cup {"u256"} : \E a \in Bnd(T), d \in Bnd(T) \ {Z0}, s \in {1, 2} :
-         ex = [k |-> "divrem", ty |-> T, l |-> Lit(T, a), d |-> d, sel |-> s]
-ConvOperands(S, U) == Bnd(S) \cup (IF U = "felt252" \/ S = "felt252" THEN {}
-                                   ELSE {z \in {Lo(U), Hi(U), ZAdd(Hi(U), Z1), ZSub(Lo(U), Z1)} : InRange(S, z)})
+I3 == \E T \in IntTypes \cup {"u256"} : \E p \in {q \in Pairs(T) : q[2] # Z0}, s \in {1, 2} :
+         ex = [k |-> "divrem", ty |-> T, l |-> Lit(T, p[1]), d |-> p[2], sel |-> s]
+ConvOperands(S, U) == (IF Quick THEN (IF S = "felt252" THEN {ZM1, ZSub(PRIME, Z1), HALFP, ZPow2(128)} ELSE {Lo(S), Hi(S)})
+                       ELSE Bnd(S))
+                      \cup (IF U = "felt252" \/ S = "felt252" THEN {}
+                           ELSE {z \in {Lo(U), Hi(U), ZAdd(Hi(U), Z1), ZSub(Lo(U), Z1)} : InRange(S, z)})
 I4 == \E S \in NumTypes, kd \in {"into", "try_into"} : \E U \in ConvTargets(S, kd) : \E a \in ConvOperands(S, U) :
          ex = Conv(kd, S, U, Lit(S, a))
 IB == \/ \E o \in BitOps \cup {"eq", "ne"}, a \in BOOLEAN, b \in BOOLEAN :
@@ -178,11 +193,12 @@ IB == \/ \E o \in BitOps \cup {"eq", "ne"}, a \in BOOLEAN, b \in BOOLEAN :
       \/ \E a \in BOOLEAN : ex = [k |-> "un", op |-> "not", e |-> [k |-> "blit", v |-> a]]
 
 \* depth 2
-D2Types == IF Quick THEN {"u8", "i8", "i64", "u128", "u256", "felt252"} ELSE NumTypes
+D2Types == IF Quick THEN {"i8", "u128", "felt252"} ELSE NumTypes
 Outer(T) == IF Quick THEN InnerOps(T) \cap {"add", "div", "mul"} ELSE InnerOps(T)
-I5 == \E T \in D2Types : \E o1 \in InnerOps(T), o2 \in Outer(T), a \in Bnd2(T), b \in Bnd2(T), c \in Bnd2(T) :
+Inner(T) == IF Quick THEN InnerOps(T) \cap {"add", "sub", "mul"} ELSE InnerOps(T)
+I5 == \E T \in D2Types : \E o1 \in Inner(T), o2 \in Outer(T), a \in Bnd2(T), b \in Bnd2(T), c \in Bnd2(T) :
          ex = Bin(o2, Bin(o1, Lit(T, a), Lit(T, b)), Lit(T, c))
-I6 == \E T \in D2Types : \E o1 \in InnerOps(T), o2 \in {"sub", "div", "rem"} \cap InnerOps(T),
+I6 == \E T \in (IF Quick THEN {"i8"} ELSE D2Types) : \E o1 \in Inner(T), o2 \in {"sub", "div", "rem"} \cap InnerOps(T),
                             a \in Bnd2(T), b \in Bnd2(T), c \in Bnd2(T) :
          ex = Bin(o2, Lit(T, c), Bin(o1, Lit(T, a), Lit(T, b)))
 \* casts of computed values, and arithmetic on widened values
